@@ -229,7 +229,44 @@ def merge(t_toks, r_toks, flip=False):
         end = idx[i] if i < len(idx) else len(t_toks)
         return t_toks[start:end]
 
-    for tag, i1, i2, j1, j2 in sm.get_opcodes():
+    ops = sm.get_opcodes()
+    # Pre-pass: a proof run sitting strictly inside a deleted / replaced span loses its place. If the statement it
+    # precedes was MOVED (the same token sequence re-appears exactly once in inserted text), the run moves with it;
+    # otherwise it is dropped and recorded (a failure of that item is then a lost anchor, not a refutation).
+    ins_ranges = [(j1, j2) for tag, i1, i2, j1, j2 in ops if tag in ("insert", "replace")]
+    reanchor = {}
+    moved = set()
+    for tag, i1, i2, j1, j2 in ops:
+        if tag not in ("delete", "replace"):
+            continue
+        for i in range(i1 + 1, i2):
+            start = idx[i - 1] + 1
+            if idx[i] - start <= 0:
+                continue
+            anchor = []
+            for k in range(i, i2):
+                anchor.append(e0[k])
+                if e0[k] == ";" or len(anchor) >= 16:
+                    break
+            if len(anchor) < 4 or anchor[0] in ("{", "}", ")", "else") or anchor[-1] != ";":
+                continue
+            n = len(anchor)
+            pos = [j for (a, b) in ins_ranges for j in range(a, b - n + 1) if r[j:j + n] == anchor]
+            if len(pos) == 1:
+                reanchor.setdefault(pos[0], []).append(t_toks[start:idx[i]])
+                moved.add(i)
+                emitted.add(i)
+
+    def emit_repo(j1, j2):
+        res = []
+        for j in range(j1, j2):
+            for run in reanchor.get(j, []):
+                res += run
+            r_toks[j].src = "R"
+            res.append(r_toks[j])
+        return res
+
+    for tag, i1, i2, j1, j2 in ops:
         if tag == "equal":
             for i in range(i1, i2):
                 out += ghost_before(i)
@@ -243,15 +280,17 @@ def merge(t_toks, r_toks, flip=False):
                 ins_first = not ins_first
             if not ins_first:
                 out += ghost_before(i1)
-            for t in r_toks[j1:j2]:
-                t.src = "R"
-                out.append(t)
+            out += emit_repo(j1, j2)
             if ins_first:
                 out += ghost_before(i1)
             # ghost runs strictly inside a deleted / replaced span lose their context
-            # (closure specs, proof blocks about deleted statements): they are dropped
+            # (closure specs, proof blocks about deleted statements): they are dropped unless re-anchored above
             dropped = []
+            n_moved = 0
             for i in range(i1 + 1, i2):
+                if i in moved:
+                    n_moved += 1
+                    continue
                 dropped += ghost_before(i)
             drift.append({
                 "op": tag,
@@ -259,6 +298,7 @@ def merge(t_toks, r_toks, flip=False):
                 "repo": " ".join(r[j1:j2]),
                 "repo_line": r_toks[j1].line if j1 < len(r_toks) else (r_toks[-1].line if r_toks else 0),
                 "ghost_dropped": " ".join(t.text for t in dropped)[:300],
+                "ghost_moved_with_its_statement": n_moved,
             })
     out += ghost_before(len(idx))
     return out, drift
